@@ -49,18 +49,29 @@ class AtomTheory(SpecTheory):
         return Obj(self.index.cls(cname), {"name": z3.String(fresh_name(tag + "_name")), "values": self.sym_oset(tag + "_values")})
 
     # ---- executor hooks
+    pkg_valid = False      # True while a version-valued atom is run: packaging's Specifier(op + literal) is then a valid specifier
+
     def getattr_other(self, ex, o, attr):
+        if isinstance(o, _PkgSpecVal) and attr == "contains":
+            return _PkgContains(o)
         return None
 
     def external(self, ex, mod, name):
         if mod.startswith("packaging") and name == "Specifier":
-            return _InvalidSpecifierCtor()
+            return _ValidSpecifierCtor() if self.pkg_valid else _InvalidSpecifierCtor()
         return None
 
     def call_other(self, ex, f, args, kw):
         if isinstance(f, _InvalidSpecifierCtor):
             # well-defined string atom: op + literal is not a PEP 440 specifier
             raise RaiseEx("PkgInvalidSpecifier", "not a version specifier")
+        if isinstance(f, _ValidSpecifierCtor):
+            # version-valued atom: the specifier packaging builds from this text, known only through its text (uninterpreted membership)
+            t = args[0]
+            return _PkgSpecVal(t if z3.is_expr(t) else z3.StringVal(t))
+        if isinstance(f, _PkgContains):
+            x = args[0]
+            return PKG_CONTAINS(f.spec.text, x if z3.is_expr(x) else z3.StringVal(x))
         return NotImplemented
 
     def index_env(self, ex, key):
@@ -92,3 +103,22 @@ class AtomTheory(SpecTheory):
 
 class _InvalidSpecifierCtor:
     pass
+
+
+class _ValidSpecifierCtor:
+    pass
+
+
+class _PkgSpecVal:
+    def __init__(self, text):
+        self.text = text
+
+
+class _PkgContains:
+    def __init__(self, spec):
+        self.spec = spec
+
+
+# packaging.specifiers.Specifier(text).contains(item): uninterpreted (A-PKG-EVAL: with and without prereleases=True it is the same function of
+# (text, item) in the installed packaging >= 26; the bounded part compares against the installed packaging on pre-release environments)
+PKG_CONTAINS = z3.Function("pkg_contains", z3.StringSort(), z3.StringSort(), z3.BoolSort())
